@@ -55,7 +55,7 @@ def case_class(c):
 
 
 def fam_group(fam):
-    return {'xml': 'xml', 'soap11': 'xml', 'soap12': 'xml', 'json': 'dict', 'yaml': 'dict', 'msgpack': 'dict', 'msgpack_bin': 'dict_bin', 'http': 'flat'}[fam]
+    return {'xml': 'xml', 'soap11': 'xml', 'soap12': 'xml', 'json': 'dict', 'yaml': 'dict', 'msgpack': 'dict', 'msgpack_bin': 'dict_bin', 'http': 'flat', 'jsonrpc': 'envelope'}[fam]
 
 
 _CASES = None
